@@ -53,6 +53,20 @@ CHECKS = {
              "the stub; records, manager calls and policy queries must equal the model's and are judged by specC16.",
         design="§5 C16", technique="Lean 4 proof (loop invariant over the episode loop, reusing the manager invariant) + "
                                    "differential correspondence with the real trainers"),
+    "C18": dict(
+        text="Lean 4 theorems fromArray_spec / fromFile_eq_fromArray / fromGrid_eq / direct_spec / extra_agents_merge "
+             "/ layout_wins / layout_reset_positions / layout_reset_succeeds / C18_all_builders_agree: for every "
+             "shape, every arrangement of registered, unregistered and reserved characters, every registry and "
+             "every extra-agent dictionary (id clashes included) the model's array builder yields exactly one agent "
+             "per registered entry in row-major order, numbered per character from 0, at (i / cols, i % cols); "
+             "parsing the text rendering, building from the grid holding those agents and building directly give "
+             "the same simulation; extras survive iff no layout agent has their id; after reset every layout agent "
+             "is on its cell (specC18, with readings). Tie: the real build_sim_from_array/_file/_grid, build_sim "
+             "and PositionState.reset run on generated layouts; the five canonical outcomes must equal the model's "
+             "and specC18 is evaluated by the driver on the implementation's outcomes. Finding B1 (the "
+             "character '0' could be registered) was repaired in /repo (e0e97b5) and is kept as a corpus case.",
+        design="§5 C18", technique="Lean 4 proof (loop flattening, split/join round trip, dictionary-update "
+                                   "characterisation) + differential correspondence with the four real builders"),
 }
 
 PENDING = {
